@@ -45,12 +45,12 @@ def make_sim(kind, seed, n=200, dur=8, extra=None, variant=0):
     if kind == 'sir_tabdeaths':
         import pandas as pd
         rows = [dict(Time=y, Sex=sx, AgeGrpStart=a, mx=(mx + (y - 1990)) * (1 + 3 * variant) + (5 if sx == 'Male' else 0)) for y in (1990, 2000, 2010, 2020) for sx in ('Female', 'Male') for a, mx in ((0, 10), (5, 3), (40, 15), (70, 120))]
-        return ss.Sim(diseases=L('diseases', [ss.SIR(beta={'mf': [0.3, 0.2]}, init_prev=0.1)]), networks=L('networks', [ss.MFNet()]), demographics=[ss.Deaths(death_rate=pd.DataFrame(rows))], analyzers=L('analyzers', []), interventions=L('interventions', []), start=2000, **kw)
+        return ss.Sim(diseases=L('diseases', [ss.SIR(beta={'mf': [0.3, 0.2]}, init_prev=0.1)]), networks=L('networks', [ss.MFNet()]), demographics=[ss.Deaths(death_rate=pd.DataFrame(rows))], connectors=L('connectors', []), analyzers=L('analyzers', []), interventions=L('interventions', []), start=2000, **kw)
     if kind == 'sis_tx2':
         import pandas as pd
         df = pd.DataFrame([dict(name='x', disease='sis', state='infected', efficacy=0.7 + 0.05 * variant, post_state='susceptible'), dict(name='x', disease='sis', state='susceptible', efficacy=0.5, post_state='susceptible')])
         trt = ss.treat_num(product=ss.Tx(df), prob=0.6, max_capacity=20, eligibility=lambda sim: sim.people.auids, name='trt')
-        return ss.Sim(diseases=L('diseases', [ss.SIS(beta=0.1, init_prev=0.3)]), networks=L('networks', [ss.StaticNet()]), interventions=L('interventions', [trt]), analyzers=L('analyzers', []), **kw)
+        return ss.Sim(diseases=L('diseases', [ss.SIS(beta=0.1, init_prev=0.3)]), networks=L('networks', [ss.StaticNet()]), interventions=L('interventions', [trt]), connectors=L('connectors', []), analyzers=L('analyzers', []), **kw)
     if kind == 'sir_userdists':
         # the user holds distribution objects (created stand-alone, non-strict) and keeps using them between sims
         global _USER_DISTS
@@ -58,18 +58,18 @@ def make_sim(kind, seed, n=200, dur=8, extra=None, variant=0):
         except NameError: _USER_DISTS = dict(w=ss.weibull(c=2.0, scale=8.0, strict=False), g=ss.gamma(a=2.0, scale=3.0, strict=False))
         _USER_DISTS['w'].rvs(3); _USER_DISTS['g'].rvs(5)       # stand-alone use, every time a sim is built
         return ss.Sim(diseases=L('diseases', [ss.SIR(beta={'mf': [0.3, 0.2]}, init_prev=0.2, dur_inf=_USER_DISTS['w']), ss.SIS(beta={'mf': [0.2, 0.2]}, dur_inf=_USER_DISTS['g'])]), networks=L('networks', [ss.MFNet()]),
-                      analyzers=L('analyzers', []), interventions=L('interventions', []), **kw)
-    if kind == 'sir_mf': return ss.Sim(diseases=L('diseases', [ss.SIR(beta={'mf': [0.3, 0.2]}, init_prev=0.1)]), networks=L('networks', [ss.MFNet()]), analyzers=L('analyzers', []), interventions=L('interventions', []), **kw)
-    if kind == 'sis_static': return ss.Sim(diseases=L('diseases', [ss.SIS(beta=0.1)]), networks=L('networks', [ss.StaticNet()]), analyzers=L('analyzers', []), interventions=L('interventions', []), **kw)
-    if kind == 'sir_er_deaths': return ss.Sim(diseases=L('diseases', [ss.SIR(beta=0.2, p_death=0.2)]), networks=L('networks', [ss.ErdosRenyiNet()]), demographics=[ss.Deaths(death_rate=30)], analyzers=L('analyzers', []), interventions=L('interventions', []), **kw)
-    if kind == 'sir_preg': return ss.Sim(diseases=L('diseases', [ss.SIR(beta={'mf': [0.3, 0.2], 'maternal': [0.5, 0]})]), networks=L('networks', [ss.MFNet(), ss.MaternalNet()]), demographics=[ss.Pregnancy(fertility_rate=100), ss.Deaths(death_rate=20)], analyzers=L('analyzers', []), interventions=L('interventions', []), **kw)
-    if kind == 'sis_pool': return ss.Sim(diseases=L('diseases', [ss.SIS(beta=0.0)]), networks=L('networks', [ss.MixingPool(beta=1.0, contacts=ss.poisson(2))]), analyzers=L('analyzers', []), interventions=L('interventions', []), **kw)
-    if kind == 'hiv_mf_vx': return ss.Sim(diseases=L('diseases', [ss.SIR(beta={'mf': [0.3, 0.2]})]), networks=L('networks', [ss.MFNet()]), interventions=L('interventions', [ss.routine_vx(product=ss.sir_vaccine(efficacy=0.5), prob=0.2)]), analyzers=L('analyzers', []), **kw)
-    if kind == 'measles_day': return ss.Sim(diseases=L('diseases', [ss.Measles(beta=0.5, init_prev=0.1)]), networks=L('networks', [ss.StaticNet()]), analyzers=L('analyzers', []), interventions=L('interventions', []), unit='day', start='2020-01-01', dt=2.0, n_agents=n, dur=30, rand_seed=seed, verbose=0)
-    if kind == 'sir_births': return ss.Sim(diseases=L('diseases', [ss.SIR(beta={'mf': [0.3, 0.2]})]), networks=L('networks', [ss.MFNet()]), demographics=[ss.Births(birth_rate=30), ss.Deaths(death_rate=20)], analyzers=L('analyzers', []), interventions=L('interventions', []), **kw)
-    if kind == 'sir_random_odd': return ss.Sim(diseases=L('diseases', [ss.SIR(beta=0.1)]), networks=L('networks', [ss.RandomNet(n_contacts=5)]), analyzers=L('analyzers', []), interventions=L('interventions', []), **kw)
-    if kind == 'sir_random_even': return ss.Sim(diseases=L('diseases', [ss.SIR(beta=0.1)]), networks=L('networks', [ss.RandomNet(n_contacts=4)]), analyzers=L('analyzers', []), interventions=L('interventions', []), **kw)
-    if kind == 'ncd': return ss.Sim(diseases=L('diseases', [ss.NCD()]), analyzers=L('analyzers', []), interventions=L('interventions', []), demographics=[ss.Deaths(death_rate=10)], **kw)
+                      connectors=L('connectors', []), analyzers=L('analyzers', []), interventions=L('interventions', []), **kw)
+    if kind == 'sir_mf': return ss.Sim(diseases=L('diseases', [ss.SIR(beta={'mf': [0.3, 0.2]}, init_prev=0.1)]), networks=L('networks', [ss.MFNet()]), connectors=L('connectors', []), analyzers=L('analyzers', []), interventions=L('interventions', []), **kw)
+    if kind == 'sis_static': return ss.Sim(diseases=L('diseases', [ss.SIS(beta=0.1)]), networks=L('networks', [ss.StaticNet()]), connectors=L('connectors', []), analyzers=L('analyzers', []), interventions=L('interventions', []), **kw)
+    if kind == 'sir_er_deaths': return ss.Sim(diseases=L('diseases', [ss.SIR(beta=0.2, p_death=0.2)]), networks=L('networks', [ss.ErdosRenyiNet()]), demographics=[ss.Deaths(death_rate=30)], connectors=L('connectors', []), analyzers=L('analyzers', []), interventions=L('interventions', []), **kw)
+    if kind == 'sir_preg': return ss.Sim(diseases=L('diseases', [ss.SIR(beta={'mf': [0.3, 0.2], 'maternal': [0.5, 0]})]), networks=L('networks', [ss.MFNet(), ss.MaternalNet()]), demographics=[ss.Pregnancy(fertility_rate=100), ss.Deaths(death_rate=20)], connectors=L('connectors', []), analyzers=L('analyzers', []), interventions=L('interventions', []), **kw)
+    if kind == 'sis_pool': return ss.Sim(diseases=L('diseases', [ss.SIS(beta=0.0)]), networks=L('networks', [ss.MixingPool(beta=1.0, contacts=ss.poisson(2))]), connectors=L('connectors', []), analyzers=L('analyzers', []), interventions=L('interventions', []), **kw)
+    if kind == 'hiv_mf_vx': return ss.Sim(diseases=L('diseases', [ss.SIR(beta={'mf': [0.3, 0.2]})]), networks=L('networks', [ss.MFNet()]), interventions=L('interventions', [ss.routine_vx(product=ss.sir_vaccine(efficacy=0.5), prob=0.2)]), connectors=L('connectors', []), analyzers=L('analyzers', []), **kw)
+    if kind == 'measles_day': return ss.Sim(diseases=L('diseases', [ss.Measles(beta=0.5, init_prev=0.1)]), networks=L('networks', [ss.StaticNet()]), connectors=L('connectors', []), analyzers=L('analyzers', []), interventions=L('interventions', []), unit='day', start='2020-01-01', dt=2.0, n_agents=n, dur=30, rand_seed=seed, verbose=0)
+    if kind == 'sir_births': return ss.Sim(diseases=L('diseases', [ss.SIR(beta={'mf': [0.3, 0.2]})]), networks=L('networks', [ss.MFNet()]), demographics=[ss.Births(birth_rate=30), ss.Deaths(death_rate=20)], connectors=L('connectors', []), analyzers=L('analyzers', []), interventions=L('interventions', []), **kw)
+    if kind == 'sir_random_odd': return ss.Sim(diseases=L('diseases', [ss.SIR(beta=0.1)]), networks=L('networks', [ss.RandomNet(n_contacts=5)]), connectors=L('connectors', []), analyzers=L('analyzers', []), interventions=L('interventions', []), **kw)
+    if kind == 'sir_random_even': return ss.Sim(diseases=L('diseases', [ss.SIR(beta=0.1)]), networks=L('networks', [ss.RandomNet(n_contacts=4)]), connectors=L('connectors', []), analyzers=L('analyzers', []), interventions=L('interventions', []), **kw)
+    if kind == 'ncd': return ss.Sim(diseases=L('diseases', [ss.NCD()]), connectors=L('connectors', []), analyzers=L('analyzers', []), interventions=L('interventions', []), demographics=[ss.Deaths(death_rate=10)], **kw)
     raise KeyError(kind)
 
 
